@@ -19,8 +19,12 @@ RULE = ("kind=pair: two real clients + scripted server on the simulated net; one
         "size; a fault plan cuts the file connection (RST / silent loss ending in ETIMEDOUT after 900 s / FIN) when the file position reaches K on "
         "attempts 1..3, or inside the 4-byte ticket / 8-byte offset, then faults stop; seeded segmentation, "
         "latencies, connect mode (race/fallback), direct or indirect (firewalled) file connections, bandwidth "
-        "limits on/off, thread-pool latency. kind=dishonest: one real client against a scripted peer that sends "
-        "too few / too many bytes or announces an offset beyond the size. Oracle: conservation over the taps "
+        "limits on/off, thread-pool latency; variants: the local partial file is truncated between attempts, the "
+        "user pauses and re-queues in mid-transfer, the uploader's first file connection arrives around the "
+        "downloader's 60 s wait (direct attempt hangs, the server relays the connect-to-peer request 40-55 s late). "
+        "kind=dishonest: one real client against a scripted peer that sends too few / too many bytes or announces an "
+        "offset beyond the size, optionally followed by a user re-queue of the FAILED download against an honest "
+        "second attempt. Oracle: conservation over the taps "
         "(delivered payload == source[offset:...], local file append-only and a prefix of the source), whole-file "
         "comparison at every COMPLETE notification, offset on the wire == local size at that moment, uploader "
         "COMPLETE only after writing every byte from the offset on a connection that has ended, and bounded "
